@@ -636,6 +636,21 @@ def main():
         deleg[m] = calls
     facts['ioMethodDelegates'] = deleg
 
+    # ---- F20 the pure-Python fallback of broadcast_shapes (used when numpy cannot be imported) -------------------------
+    bs = find_def(utl_t, 'broadcast_shapes')
+    facts['broadcastFallback'] = None
+    if bs is not None:
+        src = src_of(bs)
+        rule = None
+        if 'non_unit = set((ax_len for ax_len in ax_lens if ax_len != 1))' in src and 'if len(non_unit) > 1:' in src \
+                and 'out_shape.append(non_unit.pop() if len(non_unit) else 1)' in src:
+            rule = 'nonUnitEqual'
+        elif 'bcast = max(ax_lens)' in src and 'all((ax_len in (1, bcast) for ax_len in ax_lens))' in src:
+            rule = 'maxBased'
+        facts['broadcastFallback'] = {'rule': rule, 'reverseBack': 'return tuple(reversed(out_shape))' in src,
+                                      'zipReversed': 'zip_longest(*(reversed(arg) for arg in args), fillvalue=1)' in src,
+                                      'defersToNumpy': 'return numpy.broadcast_shapes(*map(tuple, args))' in src}
+
     # ---- emit -------------------------------------------------------------------------------------------
     facts['tie_broken'] = broken
     os.makedirs(os.path.dirname(OUT_JSON), exist_ok=True)
@@ -753,6 +768,13 @@ def emit_lean(F):
       ', '.join(pipe(n, v) for n, v in (F.get('ioPipelines') or {}).items()) + ']')
     A('def ioMethodDelegates : List (String × List String) := [' + ', '.join(
         f'({lean_str(m)}, [' + ', '.join(map(lean_str, c or [])) + '])' for m, c in (F.get('ioMethodDelegates') or {}).items()) + ']')
+    bf = F.get('broadcastFallback') or {}
+    A('/-- the pure-Python fallback of `broadcast_shapes`: the per-axis rule, whether the result is reversed back, whether the')
+    A('columns are taken right-aligned with fill value 1, and whether numpy is preferred when present -/')
+    A('def broadcastRule : Option String := ' + lean_opt(bf.get('rule'), lean_str))
+    A('def broadcastReverseBack : Option Bool := ' + lean_opt(bf.get('reverseBack'), lean_bool))
+    A('def broadcastZipReversed : Option Bool := ' + lean_opt(bf.get('zipReversed'), lean_bool))
+    A('def broadcastDefersToNumpy : Option Bool := ' + lean_opt(bf.get('defersToNumpy'), lean_bool))
     A('def tieBroken : List String := [' + ', '.join(map(lean_str, F['tie_broken'])) + ']')
     A('')
     A('end PaneModel.Facts')
